@@ -132,14 +132,17 @@ Commit(ops, ok) ==
 \* result of ClaimFirstPartOutboxEntry: "none" (no entry), "busy" (first entry held under a live lease), "claimed"
 ClaimResult(es) == IF es = <<>> THEN "none"
                    ELSE IF es[1].owner = NoOwner \/ ~es[1].lease THEN "claimed" ELSE "busy"
-Claim(w) ==
+\* es = the entries as the claim statement sees them (trace validation passes the entries with their
+\* leases expired when the wall clock, which is not logged, must have passed claim_until)
+ClaimOn(es, w) ==
   /\ pc[w] = "idle"
-  /\ IF ClaimResult(entries) = "claimed"
-     THEN /\ entries' = [entries EXCEPT ![1] = [@ EXCEPT !.owner = Me(w), !.lease = TRUE, !.ver = @ + 1]]
+  /\ IF ClaimResult(es) = "claimed"
+     THEN /\ entries' = [es EXCEPT ![1] = [@ EXCEPT !.owner = Me(w), !.lease = TRUE, !.ver = @ + 1]]
           /\ pc' = [pc EXCEPT ![w] = "claimed"]
-          /\ held' = [held EXCEPT ![w] = [id |-> entries[1].id, part |-> entries[1].part, op |-> entries[1].op, content |-> NoC]]
-     ELSE UNCHANGED <<entries, pc, held>>
+          /\ held' = [held EXCEPT ![w] = [id |-> es[1].id, part |-> es[1].part, op |-> es[1].op, content |-> NoC]]
+     ELSE entries' = es /\ UNCHANGED <<pc, held>>
   /\ UNCHANGED <<nextId, committed, inner, inc, rd, stale, cnt>>
+Claim(w) == ClaimOn(entries, w)
 
 \* the replay reader runs in its own read transaction (inner = nil): a vanished entry fails the replay
 ReplayStart(w) ==
